@@ -139,8 +139,8 @@ Proof.
   intros Hl. induction pre as [|x pre IH]; intros c i v Hc F Hb Hi.
   - cbn [app wval] in *. rewrite len_nil in *. cbn [leb_loop].
     destruct (N.ltb_spec c 128); [lia|]. rewrite b2N_N2b by lia.
-    assert (Ht : (match bd with Debug => 10 <? i + 1 | Release => false end) = false).
-    { destruct bd; [|reflexivity]. apply N.ltb_ge. lia. }
+    assert (Ht : (10 <? i + 1) && (match m, bd with Stream, _ => true | Mem, Debug => true | Mem, Release => false end) = false).
+    { destruct (N.ltb_spec 10 (i + 1)); [lia | reflexivity]. }
     rewrite Ht. rewrite add64_ok by lia. cbn [obind].
     rewrite shl64_ok by (change (2 ^ 7) with 128; lia). cbn [obind]. change (2 ^ 7) with 128.
     rewrite (N.mod_small last 128) by lia. rewrite add64_ok by lia. cbn [obind].
@@ -148,8 +148,8 @@ Proof.
   - cbn [app wval] in *. rewrite len_cons in *. inversion F as [|? ? Fx F']; subst.
     pose proof (wval_ge pre ((v + 1) * 128 + b2N x mod 128 + 1)) as Hge.
     cbn [leb_loop]. destruct (N.ltb_spec c 128); [lia|].
-    assert (Ht : (match bd with Debug => 10 <? i + 1 | Release => false end) = false).
-    { destruct bd; [|reflexivity]. apply N.ltb_ge. lia. }
+    assert (Ht : (10 <? i + 1) && (match m, bd with Stream, _ => true | Mem, Debug => true | Mem, Release => false end) = false).
+    { destruct (N.ltb_spec 10 (i + 1)); [lia | reflexivity]. }
     rewrite Ht. rewrite add64_ok by lia. cbn [obind].
     rewrite shl64_ok by (change (2 ^ 7) with 128; lia). cbn [obind]. change (2 ^ 7) with 128.
     rewrite add64_ok by lia. cbn [obind].
